@@ -4,7 +4,9 @@ import (
 	"fmt"
 	"reflect"
 	"runtime"
+	"strings"
 	"time"
+	"unsafe"
 )
 
 // Pool backs vsync.Pool: a deterministic LIFO free list plus an ownership
@@ -23,6 +25,7 @@ type Pool struct {
 	// collected counts objects that were handed out, never released, and have
 	// since become unreachable (only with TrackLive)
 	collected int
+	retired   []any // PoolFresh: released objects, kept so that addresses are not reused and a second release is seen
 }
 
 // TrackLive makes every pool follow the objects it hands out with a finalizer, so
@@ -32,6 +35,67 @@ type Pool struct {
 var TrackLive bool
 
 var poolEpoch int
+
+// PoolFresh switches every pool to "no reuse": Get always builds a new object, Put scrambles the released object
+// (numbers and flags overwritten, byte buffers filled with 0xAA, references cleared) and retires it. A program
+// that respects ownership cannot tell the difference: it never looks at an object it has released, and never
+// relies on what a recycled object happened to contain. C19's pool-transparency family runs the same
+// deterministic scenario in both modes and compares everything observable.
+var PoolFresh bool
+
+//go:norace
+func scramble(x any) {
+	v := reflect.ValueOf(x)
+	if v.Kind() != reflect.Ptr || v.IsNil() {
+		return
+	}
+	e := v.Elem()
+	if e.Kind() != reflect.Struct || !strings.Contains(e.Type().PkgPath(), "dgrr/http2") {
+		return // foreign types (fasthttp.RequestCtx) are only never reused
+	}
+	defer func() { recover() }()
+	scrambleStruct(e)
+}
+
+//go:norace
+func scrambleStruct(e reflect.Value) {
+	for i := 0; i < e.NumField(); i++ {
+		f := e.Field(i)
+		f = reflect.NewAt(f.Type(), unsafe.Pointer(f.UnsafeAddr())).Elem()
+		switch f.Kind() {
+		case reflect.Bool:
+			f.SetBool(!f.Bool())
+		case reflect.Int8:
+			f.SetInt(0x5a)
+		case reflect.Int16:
+			f.SetInt(0x5a5a)
+		case reflect.Int, reflect.Int32, reflect.Int64:
+			f.SetInt(0x5a5a5a5a)
+		case reflect.Uint8:
+			f.SetUint(0xa5)
+		case reflect.Uint16:
+			f.SetUint(0xa5a5)
+		case reflect.Uint, reflect.Uint32, reflect.Uint64, reflect.Uintptr:
+			f.SetUint(0xa5a5a5a5)
+		case reflect.String:
+			f.SetString("\xaareleased\xaa")
+		case reflect.Slice:
+			if f.Type().Elem().Kind() == reflect.Uint8 && f.Cap() > 0 {
+				b := f.Slice(0, f.Cap()).Bytes()
+				for j := range b {
+					b[j] = 0xaa
+				}
+			}
+			f.Set(reflect.Zero(f.Type()))
+		case reflect.Ptr, reflect.Interface, reflect.Map, reflect.Chan, reflect.Func:
+			f.Set(reflect.Zero(f.Type()))
+		case reflect.Struct:
+			if strings.Contains(f.Type().PkgPath(), "dgrr/http2") {
+				scrambleStruct(f)
+			}
+		}
+	}
+}
 
 //go:norace
 func (p *Pool) track(x any) {
@@ -104,6 +168,7 @@ func resetPools() {
 	for _, p := range allPools {
 		p.items = nil
 		p.owner = nil
+		p.retired = nil
 		p.Gets, p.Puts, p.collected = 0, 0, 0
 	}
 }
@@ -120,7 +185,9 @@ func (p *Pool) register() {
 func (p *Pool) Get() any {
 	p.register()
 	p.Gets++
-	if PoolPerGoroutine {
+	if PoolFresh {
+		// nothing is ever handed out twice
+	} else if PoolPerGoroutine {
 		// only take back what this goroutine released itself: no object, and so no
 		// happens-before edge, passes from one goroutine to another through the pool
 		me := cur()
@@ -175,6 +242,17 @@ func (p *Pool) Put(x any) {
 	}
 	if who, ok := InUse(x); ok {
 		Event("pool: %T released while %s is still using it at %s", x, who, callers())
+	}
+	if PoolFresh {
+		for _, y := range p.retired {
+			if y == x {
+				Event("pool: double release of %T (pool %s) at %s", x, p.Name, callers())
+				return
+			}
+		}
+		scramble(x)
+		p.retired = append(p.retired, x)
+		return
 	}
 	raceReleaseMerge(poolRaceAddr(x))
 	p.items = append(p.items, x)
